@@ -141,6 +141,10 @@ def direction1(ck, case):
     for name, (tid, base, k, vals) in case["extras"].items():
         arr = to_array([p for row in vals for p in row], base)
         las[name] = arr if k == 1 else arr.reshape(n, k)
+    if case["minor"] >= 4 and ck.rng.random() < 0.6:
+        from laspy.vlrs.vlrlist import VLRList
+        case["evlrs_written"] = [("SpecEnc", 7, "an evlr", bytes(range(40))), ("SpecEnc", 8, "", b"")][:ck.rng.choice([1, 2])]
+        las.evlrs = VLRList(laspy.VLR(*v) for v in case["evlrs_written"])
     if case["extras"] and ck.rng.random() < 0.4:
         # the VLR list re-assigned as a whole: the EXTRA_BYTES record must still reach the file
         ck.count("vlrs_reassigned_with_extras")
@@ -396,7 +400,23 @@ def run(ck):
         if dec["recs"] != exp_rows:
             bad = next(((i, j) for i in range(len(exp_rows)) for j in range(len(exp_rows[i])) if i >= len(dec["recs"]) or j >= len(dec["recs"][i]) or dec["recs"][i][j] != exp_rows[i][j]), None)
             ck.fail(f"spec decoder recovers different values at point {bad[0]} field #{bad[1]}" if bad else "spec decoder recovers a different number of values", inp)
-        if not dec["filelen_ok"]:
+        if case.get("evlrs_written"):
+            # the specification's reader: number of EVLRs and start of the first one from the header block; records of 60 + n bytes
+            ck.count("direction1_with_evlrs")
+            nev = int.from_bytes(data[243:247], "little")
+            pos = int.from_bytes(data[235:243], "little")
+            want_pos = dec["offset"] + dec["count"] * dec["reclen"]
+            got = []
+            p_ = pos
+            for _ in range(min(nev, 4)):
+                ln = int.from_bytes(data[p_ + 20:p_ + 28], "little")
+                got.append((data[p_ + 2:p_ + 18].split(b"\0")[0].decode("latin-1"), int.from_bytes(data[p_ + 18:p_ + 20], "little"),
+                            data[p_ + 28:p_ + 60].split(b"\0")[0].decode("latin-1"), data[p_ + 60:p_ + 60 + ln]))
+                p_ += 60 + ln
+            if nev != len(case["evlrs_written"]) or pos != want_pos or got != [tuple(v) for v in case["evlrs_written"]] or p_ != len(data):
+                ck.fail(f"EVLR block: the header says {nev} record(s) at byte {pos}; the specification's reader expects {len(case['evlrs_written'])} at "
+                        f"{want_pos} (offset + count x record length) and recovers {[g[:2] for g in got]}", dict(inp, evlrs=len(case["evlrs_written"])))
+        elif not dec["filelen_ok"]:
             ck.fail("file length != offset + count x record length", inp)
         off, rl = dec["offset"], dec["reclen"]
         lines.append(f"spec decpoints {case['fmt']} {','.join(map(str, extra_widths(case))) or '-'} {case['n']} {hx(data[off:off + case['n'] * rl])}")
